@@ -4,6 +4,7 @@ import ast
 import collections
 import dataclasses
 import difflib
+import io
 import functools
 import heapq
 import re
@@ -547,7 +548,8 @@ def _insert_nodes(source: str, additions: Collection[ast.AST]) -> str:
     Returns:
         str: Code with added asts.
     """
-    lines = source.splitlines(keepends=True)
+    # The lines that the parser sees: a form feed does not end a line
+    lines = io.StringIO(source, newline="").readlines()
 
     for node in sorted(additions, key=lambda n: n.lineno, reverse=True):
         addition = core.unparse(node)
@@ -650,6 +652,10 @@ def alter_code(
             source = _replace_nodes(source, {value[0]: value[1]})
         else:
             raise ValueError(f"Invalid action: {action}")
+
+    if not core.is_valid_python(source):
+        # The edits do not fit into this code, for example where it is indented with tabs
+        return original_source
 
     source = _substitute_original_strings(original_source, source)
     source = _substitute_original_fstrings(original_source, source)
